@@ -84,7 +84,7 @@ def P(pid):
         ]
         meta['explanation'] = ('Necessary conditions of proof soundness: challenge ingredients must-flow, the challenge equality and the pairing '
                                'check gate every accept path and depend on every proof field and every public input, identity points are refused '
-                               'on every constructor path, and the disclosed messages stay paired with their indexes (no list of a pair is re-ordered without the other). Knowledge soundness of the sigma protocol itself is not decided.')
+                               'on every constructor path, the disclosed messages stay paired with their indexes (no list of a pair is re-ordered without the other), and the blind verifier keeps signer positions (below L) and committed positions (below M) apart. Knowledge soundness of the sigma protocol itself is not decided.')
     elif pid == 'C06':
         R = [
             ('RF-B committed index translation and signer generator count use L + 1', rf_codec.rule_index_translation, 4),
@@ -286,7 +286,7 @@ def P(pid):
         meta['explanation'] = ('Decided (necessary): every use of the secret key in blind_sign is dominated by verify_proof == true on the very C, C_trusted, pk, bases, key and positions '
                                'that are signed; verify_proof is gated by the multi-secret PoK, the per-attribute PoKs / range proofs and the PoK / range proof of r; each per-attribute commitment '
                                'is built over the base its proof uses (the defect that broke hidden positions other than 0); every carried commitment is equated with the value it must be about; '
-                               'every serialised leaf of the ZKPoK influences a comparison the verdict depends on (the commitment randomness leaves do not: known finding), and every transmitted integer is seen by some comparison as itself, not only reduced modulo n. Unblinding algebra is not decided.')
+                               'every serialised leaf of the ZKPoK influences a comparison the verdict depends on (the commitment randomness leaves do not: known finding), every transmitted integer is seen by some comparison as itself, every list field has its length compared, a trusted commitment is accepted only with its key, update_signature draws an exponent of its own. Known findings: the per-attribute proofs are not tied to C, and the C / C_trusted equality proof does not hash its statement. Unblinding algebra is not decided.')
     elif pid == 'C15':
         R = [
             ('RF-B bases are selected by attribute position', CL.rule_bases_by_attribute_position, 6),
@@ -307,7 +307,7 @@ def P(pid):
         ]
         meta['explanation'] = ('Decided (necessary): the recomputed challenge equality gates acceptance and depends on all nine responses, the four commitment values, both keys, the bases, the revealed '
                                'attributes and the attribute count; Ce is equated with the range proof on e and each per-attribute commitment with its range proof; every serialised leaf of the proof '
-                               'influences a comparison (the commitment randomness leaves do not: known finding) and every transmitted integer - in particular the commitments Cx, Cv, Cw, Ce - is pinned to its canonical representative. Completeness algebra and soundness of the nine-response protocol are not decided.')
+                               'influences a comparison (the commitment randomness leaves do not: known finding) and every transmitted integer - in particular the commitments Cx, Cv, Cw, Ce - is pinned to its canonical representative; revealed attributes are range-checked and counted, hidden positions lie below the attribute count, list fields have their lengths compared. Known findings: the per-attribute proofs are not tied to the signature proof, and the nisp5 challenge does not hash its statement. Completeness algebra and soundness of the nine-response protocol are not decided.')
     elif pid == 'C16':
         R = [
             ('RF-Y refusals of local helpers are never discarded (CL03)', lambda c: rf_errors.rule_errors_not_discarded(c, scope=rf_errors.SCOPE_CL03, min_sources=0), 1),
@@ -322,7 +322,7 @@ def P(pid):
         ]
         meta['explanation'] = ('Decided (necessary): acceptance of a Boudot range proof is gated by E\' == E^(2^T), the two decomposition equalities, both proofs of square and both larger-interval '
                                'proofs, each depending on the commitment, bases, modulus and bounds; the commitment carried by each proof of square is equated with E_a_1 / E_b_1 (the transplant defect); '
-                               'the four Fiat-Shamir hashes contain what they must; each of the 27 integers of a proof is seen by some comparison as itself and not only modulo n (E + n, F + n, shifted E_a_1 / E pairs are refused). Completeness for in-range values and the soundness bounds are not decided.')
+                               'the four Fiat-Shamir hashes contain what they must; each of the 27 integers of a proof is seen by some comparison as itself and not only modulo n (E + n, F + n, shifted E_a_1 / E pairs are refused); the challenges of both sub-proof verifiers hash their whole statement as itself (an honest proof cannot be moved onto E * g^d * h^r). Completeness for in-range values and the soundness bounds are not decided.')
     elif pid == 'C17':
         R = [
             ('RF-I no opening in the serialised proof types', CL.rule_no_opening_serialised, 4),
